@@ -1,7 +1,7 @@
 (* C16 - Computational-basis state calculus matches the state vector. *)
-From Coq Require Import ZArith NArith List Bool.
+From Coq Require Import ZArith NArith List Bool Reals.
 From QP Require Import Cx Apply.
-From QPM Require Import Pauli CompBasis.
+From QPM Require Import Pauli CompBasis SuperPos.
 Import ListNotations.
 
 (* one Pauli gate: i^phase' |bits'> = sigma_index (i^phase |bits>), every qubit count, every
@@ -24,6 +24,23 @@ Theorem out_of_range_index_rejected :
 Proof. exact add_single_pauli_rejects. Qed.
 
 (* deriving a state never changes the original: the model is a pure function on tuples *)
+(* comp_basis_superposition: after the X gates that prepare |x>, the X..X rotation on the differing qubits and the RZ
+   on the lowest differing qubit prepare cos(theta)|x> + e^{i phi} sin(theta)|y> up to a global phase - registers of any
+   size, all x <> y, all theta and phi; the lowest set bit of x xor y is a differing qubit *)
+Theorem superposition_builder_prepares_the_superposition : forall n (x m : Asum.Basis) d theta phi,
+  (d < n)%nat -> m d = true ->
+  let y := flip m x in
+  let sign := if y d then 1%R else (-1)%R in
+  let alpha := (2 * sign * (phi / 2 - PI / 4))%R in
+  exists c, Cunit c /\ forall b,
+    rzq d alpha (xrot m theta (ket n x)) b
+    = Cmul c (Cadd (Cmul (RtoC (cos theta)) (ket n x b)) (Cmul (Cmul (Cexp phi) (RtoC (sin theta))) (ket n y b))).
+Proof. exact superposition_circuit_prepares_the_superposition. Qed.
+Theorem lowest_differing_bit_differs : forall x y d, lowbit (N.lxor x y) = Some d ->
+  N.testbit x (N.of_nat d) <> N.testbit y (N.of_nat d).
+Proof. exact lowbit_is_a_differing_bit. Qed.
+Print Assumptions superposition_builder_prepares_the_superposition.
+
 Example c16_example :
   add_paulis (3%nat, 5%N, 0%Z) [(0%nat, PY); (1%nat, PX); (2%nat, PZ); (0%nat, PY)]
   = Some (3%nat, 7%N, 2%Z).
